@@ -184,7 +184,12 @@ func watched(f func() *vlib.Failure) *vlib.Failure {
 	return r
 }
 
-func allocBound(n int) uint64 { return 64*uint64(n) + 1<<20 }
+// allocBound: what decoding an n-byte file may allocate.  The decoder spends up to ~4.4 KiB on an
+// entry of 16 bytes (two growing buffers of 512+1536 bytes for the type string and the deleted
+// set, the segment record, the bitmap object): a valid file of many tiny entries costs ~275 times
+// its size.  That is proportional; "out of proportion" is what a trusted length field causes
+// (megabytes to terabytes from a file of a few dozen bytes).  See NOTES.md.
+func allocBound(n int) uint64 { return 512*uint64(n) + 1<<20 }
 
 func typeVers(es []Entry) []typeVer {
 	seen := map[typeVer]bool{}
